@@ -54,6 +54,9 @@ func judgeC08Batch(sc *BatchSc, x *batchExec, br batchRun, fail string) Verdict 
 	if fail != "" && !goroutinesRemain(fail) {
 		return bad("C08:bubble", "%s (concurrency %d, %d items, barrier %d)", fail, sc.C, sc.n(), sc.Barrier)
 	}
+	if br.Rejected {
+		return ok(false, "prep-form-rejected")
+	}
 	if br.Panic != "" {
 		return bad("C08:panic", "%s", br.Panic)
 	}
